@@ -147,7 +147,10 @@ def drv_batch(lines, timeout=1800):
     if not lines:
         return []
     text = "\n".join(l if isinstance(l, str) else sx.dumps(l) for l in lines) + "\n"
-    r = subprocess.run([str(DRV)], input=text.encode(), capture_output=True, timeout=timeout)
+    try:
+        r = subprocess.run([str(DRV)], input=text.encode(), capture_output=True, timeout=timeout)
+    except subprocess.TimeoutExpired:
+        raise Infra(f"model driver did not answer {len(lines)} commands within {timeout} s")
     if r.returncode != 0:
         raise Infra(f"model driver crashed: rc={r.returncode} {r.stderr[-300:]!r}")
     out = r.stdout.decode().splitlines()
